@@ -413,6 +413,18 @@ fn classify_common(r: &astgen::Rendered, tr: &astgen::Truth, obs: &mut Obs, dept
 // ---- junk documents -------------------------------------------------------------------------------------
 
 pub fn oracle_junk(c: &JunkCase, which: Which, obs: &mut Obs) -> Verdict {
+    oracle_junk_mode(c, which, obs, false)
+}
+
+/// `counted`: the case comes from an exhaustive enumeration (distinct by construction)
+pub fn oracle_junk_mode(c: &JunkCase, which: Which, obs: &mut Obs, counted: bool) -> Verdict {
+    let nt = |obs: &mut Obs, sample: &dyn Fn() -> Value| {
+        if counted {
+            obs.nontrivial_counted(sample)
+        } else {
+            obs.nontrivial(c, sample)
+        }
+    };
     let out = match call_clean(&c.src, &c.cfg) {
         Ok(o) => o,
         Err(p) => vfail!("clean panicked: {p}\n  src = {:?} delims = {:?}/{:?}", c.src, c.cfg.ds, c.cfg.de),
@@ -456,7 +468,7 @@ pub fn oracle_junk(c: &JunkCase, which: Which, obs: &mut Obs) -> Verdict {
                 if els.iter().any(|e| e.decision == Decision::Pending) {
                     obs.class("has-pending-registered-element");
                 }
-                obs.nontrivial(c, sample);
+                nt(obs, &sample);
             }
         }
         Which::C02 => {
@@ -464,7 +476,7 @@ pub fn oracle_junk(c: &JunkCase, which: Which, obs: &mut Obs) -> Verdict {
                 return Verdict::Fail(format!("{m}\n  delims = {:?}/{:?} targets = {:?}", c.cfg.ds, c.cfg.de, c.cfg.targets));
             }
             if ex.any_ready && !nows(&refmodel::kept_text(&c.src, &ex.keep)).is_empty() {
-                obs.nontrivial(c, sample);
+                nt(obs, &sample);
             }
         }
         Which::C03 => {
@@ -472,14 +484,14 @@ pub fn oracle_junk(c: &JunkCase, which: Which, obs: &mut Obs) -> Verdict {
                 return Verdict::Fail(format!("{m}\n  delims = {:?}/{:?} targets = {:?} now = {} offset = {:?}", c.cfg.ds, c.cfg.de, c.cfg.targets, c.cfg.now, c.cfg.offset));
             }
             if els.iter().any(|e| e.decision == Decision::Ready && e.depth >= 1) {
-                obs.nontrivial(c, sample);
+                nt(obs, &sample);
             }
         }
         Which::C14 => match assert_c14(&c.src, &ex.keep, &ex.inbody, &out) {
             Err(m) => return Verdict::Fail(format!("{m}\n  delims = {:?}/{:?} targets = {:?}", c.cfg.ds, c.cfg.de, c.cfg.targets)),
             Ok(n) => {
                 if ex.any_ready && n > 0 {
-                    obs.nontrivial(c, sample);
+                    nt(obs, &sample);
                 }
             }
         },
@@ -561,9 +573,46 @@ pub fn check(ctx: &mut Ctx, id: &'static str) {
         }
         Which::C14 => ctx.require_class("has-unwrapped-body"),
     }
+    // bounded-exhaustive atom sequences, judged by the reference model
+    {
+        let l = ctx.tier.pick(6usize, 7usize);
+        let pairs = [("<", ">"), ("<!-- <", "> -->"), ("「", "」")];
+        let mut units = vec![];
+        for (ds, de) in pairs {
+            let atoms: Vec<String> = vec![
+                format!("{ds}rm name='a'{de}"),
+                format!("{ds}/rm{de}"),
+                format!("{ds}rm name='a' unwrap-block{de}"),
+                format!("{ds}rm name='b'{de}"),
+                "\n".to_string(),
+                "x".to_string(),
+                " ".to_string(),
+                "  é".to_string(),
+            ];
+            for first in 0..atoms.len() {
+                units.push((ds.to_string(), de.to_string(), atoms.clone(), first));
+            }
+        }
+        ctx.exhaustive("atom-documents", &format!("every sequence of <= {l} atoms over {{ready tag, closing tag, ready unwrap-block tag, pending tag, line break, 'x', blank, indented multi-byte word}} for 3 delimiter pairs, judged by the reference model"), units, move |(ds, de, atoms, first), obs| {
+            let mut fail = None;
+            let cfg = Cfg::simple(ds, de);
+            crate::props::tok::enumerate(atoms, *first, l, &mut |s: &str| {
+                let c = JunkCase { src: s.to_string(), cfg: cfg.clone() };
+                obs.eval();
+                if let Verdict::Fail(m) = oracle_junk_mode(&c, which, obs, true) {
+                    fail = Some(fail_case("atom-documents", &c, m));
+                    return false;
+                }
+                true
+            });
+            fail
+        });
+    }
     let (q, th) = (300_000u64, 3_000_000u64);
     ctx.random("ast-documents", 400, q, th, |t| gen_ast(t, which), |c, obs| oracle_ast(c, which, obs));
+    ctx.reshrink::<AstCase, _, _>("ast-documents", |c, obs| oracle_ast(c, which, obs), shrink_ast);
     ctx.random("dense-ast-documents", 300, q, th, |t| gen_ast_dense(t, which), |c, obs| oracle_ast(c, which, obs));
+    ctx.reshrink::<AstCase, _, _>("dense-ast-documents", |c, obs| oracle_ast(c, which, obs), shrink_ast);
     ctx.random("junk-soup", 200, q, th, |t| junkgen::gen_soup(t, junkgen::JUNK_DELIMS, true), |c, obs| oracle_junk(c, which, obs));
     let mo = {
         let mut o = ast_opts(Which::C02);
@@ -584,6 +633,12 @@ pub fn check(ctx: &mut Ctx, id: &'static str) {
     // generator health: discards must stay moderate
     let ex: u64 = ctx.stats.excluded.iter().filter(|(k, _)| k.as_str() != "something-is-ready").map(|(_, v)| *v).sum();
     ctx.extra.insert("excluded_fraction".into(), json!(ex as f64 / ctx.stats.evaluations.max(1) as f64));
+}
+
+/// structural second shrinking pass for AST cases
+pub fn shrink_ast(c: &AstCase, fails: &dyn Fn(&AstCase) -> bool) -> AstCase {
+    let doc = astgen::minimize_doc(&c.doc, |d| fails(&AstCase { doc: d.clone(), spell: c.spell.clone(), cfg: c.cfg.clone() }));
+    AstCase { doc, spell: c.spell.clone(), cfg: c.cfg.clone() }
 }
 
 pub fn replay(id: &str, sub: &str, case: &Value, obs: &mut Obs) -> Result<Verdict, String> {
